@@ -697,7 +697,7 @@ impl<'a, W: Write> DocumentPrinter<'a, W> {
         self.newline()?;
         self.inc();
 
-        for arg in &expr.arguments {
+        for (i, arg) in expr.arguments.iter().enumerate() {
             self.indent()?;
 
             match arg {
@@ -719,7 +719,15 @@ impl<'a, W: Write> DocumentPrinter<'a, W> {
                     self.expr(&arg.expr)?;
                     write!(self.writer, ",")?;
                 }
-                InstantiationArgument::Fill(_) => write!(self.writer, "...")?,
+                InstantiationArgument::Fill(_) => {
+                    // A fill argument that is not last needs a separator, otherwise it
+                    // would be read back as a spread of the argument that follows it
+                    if i + 1 == expr.arguments.len() {
+                        write!(self.writer, "...")?
+                    } else {
+                        write!(self.writer, "...,")?
+                    }
+                }
             }
 
             self.newline()?;
